@@ -392,6 +392,7 @@ struct StreamEngine : Engine {
 		if (it != memo.end()) {
 			status = it->second.first;
 			out = it->second.second;
+			st.mix_value(status, out);
 			return true;
 		}
 		Plan q;
@@ -405,13 +406,14 @@ struct StreamEngine : Engine {
 		 * CRLF handling takes the terminator and leaves the content alone */
 		q.input = c + (!c.empty() && c.back() == '\r' ? "\r\n" : "\n");
 		RunResult r = run_plan(q);
-		st.add_probes(r);
+		st.add_ref(r);
 		if (r.crashed() || r.flags) {
 			why = "one-line run of " + cquote(c, 60) + ": " + r.status_str() + " " + r.note + " " + asan_summary(r.err);
 			return false;
 		}
 		status = r.exit_code;
 		out = r.out;
+		st.mix_value(status, out);
 		if (memo.size() < 200000)
 			memo[key] = {status, out};
 		return true;
